@@ -228,7 +228,7 @@ def judge(griffe, variant, script, old_pkg, new_pkg):
             bare = target.split("@")[0]
             if container in lost or any(bare != l and bare.startswith(l + ".") for l in lost) or (target != bare and bare in lost):
                 continue
-            if kind_sub != "removed" and any(x["expect"][0].split("@")[0] == bare and x["expect"][1] == "removed" for x in incompat if x is not e):
+            if kind_sub != "removed" and any(x["expect"][0] == bare and x["expect"][1] == "removed" for x in incompat if x is not e):
                 continue  # the same object is also removed by the script: the removal is what has to be reported
             if e["name"] in ("remove-base", "remove-base-L", "swap-base") and "pkg.a.Base" in lost:
                 continue
